@@ -192,6 +192,11 @@ func RunBatch(p Prop, tier string, verifSeed uint64, batch int, known *KnownFind
 	start := time.Now()
 	var last *Violation
 	pin := ""
+	var pinAt time.Time
+	shrinkBudget := 75 * time.Second
+	if tier == "thorough" {
+		shrinkBudget = 3 * time.Minute
+	}
 	tb := &quietTB{}
 	harness := ""
 	wd := newWatchdog(watchdogLimit(tier))
@@ -227,6 +232,15 @@ func RunBatch(p Prop, tier string, verifSeed uint64, batch int, known *KnownFind
 			}
 		}()
 		rapid.Check(tb, func(t *rapid.T) {
+			// rapid looks at its shrink deadline only between blocks, and minimising one block
+			// can take a hundred evaluations; with a change that makes evaluations slow (a
+			// lexer handing out garbage up to the token budget at every cut) that ran for
+			// 45 minutes. Past the budget every further candidate is declined unevaluated;
+			// the smallest failing scenario seen so far is the one reported.
+			if pin != "" && time.Since(pinAt) > shrinkBudget {
+				st.Inc("harness.shrink_candidates_declined")
+				return
+			}
 			sc := p.Draw(t, tier)
 			sc.Prop = p.ID()
 			sc.Tier = tier
@@ -265,6 +279,7 @@ func RunBatch(p Prop, tier string, verifSeed uint64, batch int, known *KnownFind
 			}
 			if pin == "" {
 				pin = v.Clause
+				pinAt = time.Now()
 			}
 			if v.Clause != pin {
 				return
